@@ -425,14 +425,15 @@ class Opaque:
 
 
 class St:
-    __slots__ = ('cond', 'env', 'eff')
-    def __init__(self, cond, env=None, eff=()):
-        self.cond = cond; self.env = env if env is not None else {}; self.eff = eff
+    __slots__ = ('cond', 'env', 'eff', 'pos')
+    def __init__(self, cond, env=None, eff=(), pos=0):
+        self.cond = cond; self.env = env if env is not None else {}; self.eff = eff; self.pos = pos
     def fork(self, cond):
-        return St(cond, dict(self.env), self.eff)
+        return St(cond, dict(self.env), self.eff, self.pos)
 
 
-CAP = 9    # availability values 0..CAP-1 are exact, CAP means "CAP or more"
+CAP = 9    # availability values 0..CAP-1 are exact, CAP means "CAP or more" (its numeric value is MANY)
+MANY = 10 ** 9
 
 
 class Interp:
@@ -441,7 +442,7 @@ class Interp:
     def __init__(self, db, space, nbytes=8, signed_char_reads=True):
         self.db = db; self.sp = space; self.findings = []; self.steps = 0
         self.avail = space.byname.get('avail')
-        self.reads = collections.Counter(); self.intercept = {}; self.ptr_compare = None
+        self.reads = collections.Counter(); self.intercept = {}; self.ptr_compare = None; self.callsite = None
 
     # ---- helpers
     def byte(self, k, t='unsigned char'):
@@ -482,6 +483,16 @@ class Interp:
                 raise Unmodelled('comparison of pointers %r and %r' % (a, b))
             yield {'<': a.off < b.off, '>': a.off > b.off, '<=': a.off <= b.off, '>=': a.off >= b.off, '==': a.off == b.off, '!=': a.off != b.off}[op], st; return
         if not isinstance(a, Val) or not isinstance(b, Val): raise Unmodelled('comparison of %r and %r' % (a, b))
+        if self.avail is not None:
+            for x, y in ((a, b), (b, a)):
+                if self.avail.level in x.tabs and y.is_const() and CAP <= y.off < MANY:
+                    # sizes of CAP and more are one abstract value: a comparison with a constant that large is undecided there.
+                    # That part of the path leaves the modelled window; the exact sizes go on.
+                    many = self.sp.AND(st.cond, self.sp.restrict(self.avail.level, ((CAP, CAP),)))
+                    rest = self.sp.DIFF(st.cond, many)
+                    if many is not None: yield Abort('window'), st.fork(many)
+                    if rest is None: return
+                    st = st.fork(rest) if many is not None else st
         d = binop('-', a, b)
         S = {'<': ((-INF, -1),), '<=': ((-INF, 0),), '>': ((1, INF),), '>=': ((0, INF),), '==': ((0, 0),), '!=': ((-INF, -1), (1, INF))}[op]
         if d.is_const():
@@ -543,6 +554,8 @@ class Interp:
         if op == '&':
             tgt = e['e']
             if tgt.get('k') == 'ref': yield ('addr', tgt['d']), st; return
+            if tgt.get('k') == 'un' and tgt.get('op') == '*':
+                yield from self.ev(tgt['e'], st); return
             raise Unmodelled('address of a non-variable')
         for v, s in self.ev(e['e'], st):
             if isinstance(v, Abort): yield v, s; continue
@@ -588,15 +601,20 @@ class Interp:
             return
         if op == '=' or (op.endswith('=') and op not in ('==', '!=', '<=', '>=')):
             tgt = e['l']
-            if tgt.get('k') != 'ref': raise Unmodelled('assignment to a non-variable at %s' % e.get('loc'))
+            field = None
+            if tgt.get('k') == 'member' and (tgt.get('b') or {}).get('k') == 'ref' and tgt.get('n') in ('data', 'size'):
+                field = 0 if tgt['n'] == 'data' else 1; var = tgt['b']['d']
+            elif tgt.get('k') == 'ref': var = tgt['d']
+            else: raise Unmodelled('assignment to a non-variable at %s' % e.get('loc'))
             for r, s in self.ev(e['r'], st):
                 if isinstance(r, Abort): yield r, s; continue
+                old = s.env[var] if field is None else s.env[var].items[field]
                 if op == '=': new = r
+                else: new = self.arith(op[:-1], old, r, e.get('ct') or tgt.get('t'))
+                if isinstance(new, Val): new = fit(new, tgt.get('t'))
+                if field is None: s.env[var] = new
                 else:
-                    old = s.env[tgt['d']]
-                    new = self.arith(op[:-1], old, r, e.get('ct') or tgt.get('t'))
-                    if isinstance(new, Val): new = fit(new, tgt.get('t'))
-                s.env[tgt['d']] = new
+                    items = list(s.env[var].items); items[field] = new; s.env[var] = Agg(items)
                 yield new, s
             return
         for l, s in self.ev(e['l'], st):
@@ -604,7 +622,7 @@ class Interp:
             for r, s2 in self.ev(e['r'], s):
                 if isinstance(r, Abort): yield r, s2; continue
                 if op in ('<', '>', '<=', '>=', '==', '!='):
-                    for b, s3 in self.compare(op, l, r, s2): yield Val.const(int(b)), s3
+                    for b, s3 in self.compare(op, l, r, s2): yield (b if isinstance(b, Abort) else Val.const(int(b))), s3
                 else:
                     yield self.arith(op, l, r, e.get('t')), s2
 
@@ -706,6 +724,8 @@ class Interp:
                 v = binop('+', v, binop('<<', self.byte(av[1].off + j), Val.const(8 * j)))
             st.env[av[0][1]] = v
             yield Opaque('void'), st; return
+        if cn == 'memcmp' and len(av) == 3 and all(isinstance(x, Ptr) for x in av[:2]) and isinstance(av[2], Val) and av[2].is_const():
+            yield from self.memcmp(e, av[0], av[1], av[2].off, 0, st); return
         if cn == 'terminate' or cq == 'std::terminate':
             yield Abort('terminate'), st; return
         fn = self.db.get(e.get('cu')) if e.get('cu') else None
@@ -713,19 +733,44 @@ class Interp:
             yield from self.inline(fn, av, st, ov); return
         raise Unmodelled('call of %s at %s' % (cq or cn, e.get('loc')))
 
+    def memcmp(self, e, a, b, n, i, st):
+        """bytes are compared as unsigned char; the sign of the first difference is the result"""
+        if i == n:
+            yield Val.const(0), st; return
+        xs = []
+        for p in (a, b):
+            r = list(self.deref(Ptr(p.base, p.off + i), {'t': 'unsigned char', 'loc': e.get('loc')}, st))
+            v = r[0][0]
+            xs.append(fit(v, 'unsigned char') if isinstance(v, Val) else v)
+        for lt, s1 in self.compare('<', xs[0], xs[1], st):
+            if lt: yield Val.const(-1), s1; continue
+            for gt, s2 in self.compare('>', xs[0], xs[1], s1):
+                if gt: yield Val.const(1), s2
+                else: yield from self.memcmp(e, a, b, n, i + 1, s2)
+
     def input_call(self, e, cn, av, st):
         if cn == 'empty':
-            yield Val({self.avail.level: [1 if a == 0 else 0 for a in range(self.avail.size)]}), st
+            yield Val({self.avail.level: [1 if a <= st.pos else 0 for a in range(self.avail.size)]}), st
         elif cn == 'size':
-            if av and av[0].is_const() and av[0].off >= CAP: raise Unmodelled('size( %d ) beyond the modelled window' % av[0].off)
-            yield Val({self.avail.level: list(range(self.avail.size))}), st
+            if av and av[0].is_const() and av[0].off + st.pos >= CAP: raise Unmodelled('size( %d ) at offset %d is beyond the modelled window' % (av[0].off, st.pos))
+            yield Val({self.avail.level: [(max(a - st.pos, 0) if a < CAP else MANY) for a in range(self.avail.size)]}), st
         elif cn in ('peek_uint8', 'peek_char', 'peek_byte'):
-            k = av[0].off if av else 0
+            if av and not av[0].is_const(): raise Unmodelled('peek at a symbolic offset')
+            k = (av[0].off if av else 0) + st.pos
+            if k >= CAP:
+                yield Abort('window'), st; return
             self.need(st, k, e.get('loc'))
             yield self.byte(k, e.get('t')), st
-        elif cn == 'current': yield Ptr('cur', 0), st
+        elif cn == 'current': yield Ptr('cur', st.pos), st
         elif cn in ('bump', 'bump_in_this_line', 'bump_to_next_line'):
-            st.eff = st.eff + (('bump', av[0] if av else Val.const(1), cn),); yield Opaque('void'), st
+            n = av[0] if av else Val.const(1)
+            if not n.is_const(): raise Unmodelled('%s by a symbolic count' % cn)
+            if st.pos + n.off > CAP:
+                yield Abort('window'), st; return
+            if n.off: self.need(st, st.pos + n.off - 1, e.get('loc'))
+            st.eff = st.eff + (('bump', n, cn, st.cond, st.pos, self.callsite or e.get('loc')),)
+            st.pos += n.off
+            yield Opaque('void'), st
         else: raise Unmodelled('input operation ' + cn)
 
     def inline(self, fn, av, st, this=None):
